@@ -271,6 +271,24 @@ type ffieldS struct {
 type faction struct {
 	id, kind, karg, typ int // kind 0 by tag (karg = tag), 1 by name (karg = name), 2 by type
 	ptr, fillSet, fill  bool
+	// the post-action function's parameters: extras (non-pointer leaf types, injected from the chain
+	// unless one of them is chosen as the field) with the field parameter (typ, ptr) inserted at fpos
+	extras []int
+	fpos   int
+}
+
+func (a *faction) params() (tys []int, ptrs []bool) {
+	for i := 0; i <= len(a.extras); i++ {
+		if i == a.fpos {
+			tys = append(tys, a.typ)
+			ptrs = append(ptrs, a.ptr)
+		}
+		if i < len(a.extras) {
+			tys = append(tys, a.extras[i])
+			ptrs = append(ptrs, false)
+		}
+	}
+	return
 }
 
 func (s *fshape) encode(sb *strings.Builder) {
@@ -477,11 +495,37 @@ func genFiller(r *rng) string {
 	}
 	for _, a := range g.acts {
 		a.ptr = r.chance(1, 3)
+		if r.chance(1, 3) {
+			// further parameters, some of the field's own type (ties in addFieldFiller)
+			for k := 1 + r.intn(2); k > 0; k-- {
+				if r.chance(1, 2) {
+					a.extras = append(a.extras, a.typ)
+				} else {
+					a.extras = append(a.extras, r.intn(g.nt))
+				}
+			}
+			if a.kind != 2 {
+				a.fpos = r.intn(len(a.extras) + 1)
+			}
+			if a.ptr {
+				// a parameter of the field's type before the pointer would be the field and the
+				// pointer would be asked of the chain, which has no provider of pointers
+				for _, e := range a.extras[:a.fpos] {
+					if e == a.typ {
+						a.fpos = 0
+					}
+				}
+			}
+		}
 	}
 	var sb strings.Builder
 	fmt.Fprintf(&sb, "F %d %d", b2i(ptr), len(g.acts))
 	for _, a := range g.acts {
-		fmt.Fprintf(&sb, " %d %d %d %d %d %d %d", a.id, a.kind, a.karg, a.typ, b2i(a.ptr), b2i(a.fillSet), b2i(a.fill))
+		fmt.Fprintf(&sb, " %d %d %d %d %d %d %d %d", a.id, a.kind, a.karg, a.typ, b2i(a.ptr), b2i(a.fillSet), b2i(a.fill), len(a.extras))
+		for _, e := range a.extras {
+			fmt.Fprintf(&sb, " %d", e)
+		}
+		fmt.Fprintf(&sb, " %d", a.fpos)
 	}
 	sh.encode(&sb)
 	fmt.Fprintf(&sb, " %d", 1+r.intn(3))
@@ -541,6 +585,10 @@ func runFiller(line string) string {
 	acts := make([]*faction, nActs)
 	for i := range acts {
 		acts[i] = &faction{id: tr.next(), kind: tr.next(), karg: tr.next(), typ: tr.next(), ptr: tr.next() != 0, fillSet: tr.next() != 0, fill: tr.next() != 0}
+		for k := tr.next(); k > 0; k-- {
+			acts[i].extras = append(acts[i].extras, tr.next())
+		}
+		acts[i].fpos = tr.next()
 	}
 	sh := parseShape(tr)
 	steps := tr.next()
@@ -550,12 +598,22 @@ func runFiller(line string) string {
 	var opts []nject.FillerFuncArg
 	for _, a := range acts {
 		a := a
-		argT := gType(a.typ)
-		if a.ptr {
-			argT = reflect.PointerTo(argT)
+		ptys, pptrs := a.params()
+		argTs := gTypes(ptys)
+		for k := range argTs {
+			if pptrs[k] {
+				argTs[k] = reflect.PointerTo(argTs[k])
+			}
 		}
-		fn := reflect.MakeFunc(reflect.FuncOf([]reflect.Type{argT}, nil, false), func(in []reflect.Value) []reflect.Value {
-			log = append(log, fmt.Sprintf("A%d(%s)", a.id, gShow(in[0])))
+		fn := reflect.MakeFunc(reflect.FuncOf(argTs, nil, false), func(in []reflect.Value) []reflect.Value {
+			shown := make([]string, len(in))
+			for k, v := range in {
+				shown[k] = gShow(v)
+				if v.Kind() == reflect.Ptr {
+					shown[k] = "&" + shown[k]
+				}
+			}
+			log = append(log, fmt.Sprintf("A%d(%s)", a.id, strings.Join(shown, ",")))
 			return nil
 		}).Interface()
 		var po []nject.PostActionFuncArg
